@@ -1120,6 +1120,18 @@ func (c *ControlPlane) InheritDialerHealthFrom(previous *ControlPlane) bool {
 		previousGroups[group.Name] = group
 	}
 
+	// Dialers may be shared between groups. Capture every group's fallback before
+	// any dialer is restored, and apply the selection floors only after all
+	// dialers have been restored; otherwise a later group's restore of a shared
+	// dialer undoes the floor an earlier group was given.
+	fallbacks := make(map[*outbound.DialerGroup]outbound.ReloadSelectionFallback, len(c.outbounds))
+	for _, group := range c.outbounds {
+		if group == nil || previousGroups[group.Name] == nil {
+			continue
+		}
+		fallbacks[group] = group.CaptureReloadSelectionFallback()
+	}
+
 	for _, group := range c.outbounds {
 		if group == nil {
 			continue
@@ -1128,7 +1140,6 @@ func (c *ControlPlane) InheritDialerHealthFrom(previous *ControlPlane) bool {
 		if oldGroup == nil {
 			continue
 		}
-		fallback := group.CaptureReloadSelectionFallback()
 		oldDialers := make(map[string]*dialer.Dialer, len(oldGroup.Dialers))
 		for _, d := range oldGroup.Dialers {
 			if d == nil || d.Property() == nil {
@@ -1145,7 +1156,12 @@ func (c *ControlPlane) InheritDialerHealthFrom(previous *ControlPlane) bool {
 				hasOverlap = true
 			}
 		}
-		group.EnsureReloadSelectionFloor(fallback)
+	}
+
+	for _, group := range c.outbounds {
+		if fallback, ok := fallbacks[group]; ok {
+			group.EnsureReloadSelectionFloor(fallback)
+		}
 	}
 	return hasOverlap
 }
